@@ -49,6 +49,7 @@ func VerifyFunc(pr *Prog, eff *Effects, fi *FuncInfo, opts VerifyOpts) (rep *Fun
 	x.trackPanic = opts.TrackPanic
 	x.noSafety = opts.NoSafety
 	x.view = opts.View
+	x.nn = opts.View == "C01"
 	if opts.Lockstep != nil {
 		x.lock = &lockCtx{coupled: map[string]bool{}, funcs: opts.Lockstep, two: RealLit(2)}
 		x.noSafety = true
@@ -177,6 +178,9 @@ func VerifyFunc(pr *Prog, eff *Effects, fi *FuncInfo, opts VerifyOpts) (rep *Fun
 			st.assume(Or(Eq(v, TNull), Sel(x.initial(allocKey, ArrSort(SRef, SBool)), v)))
 		case SSlice:
 			st.assume(Or(Eq(SArr(v), IntLit(0)), Sel(x.initial(arrAllocKey, ArrSort(SInt, SBool)), SArr(v))))
+		}
+		if x.nn && v.Sort == SRef && isPtrToStruct(p.Type()) {
+			st.assume(Not(Eq(v, TNull))) // A11: pointer parameters are non-nil (asserted at call sites that are not inlined)
 		}
 		if i == 0 && sig.Recv() != nil && v.Sort == SRef {
 			if _, isPtr := types.Unalias(p.Type()).Underlying().(*types.Pointer); isPtr {
